@@ -808,6 +808,36 @@ theorem lockstep_sequence_leaves (cfg : StreamCfg) : ∀ (xs : List (ReqInfo × 
     simp only [sessionL, hpre, List.nil_append, List.map_cons, ih]
     cases lv <;> rfl
 
+/-- **C08 `download_leaves_payload_at_position`.**  "The body handed to the caller is exactly the
+payload": the caller reads the document from the position the download leaves the file at.
+For a file positioned at its end — empty, or already holding earlier documents / a saved
+header block / the part fetched before `--continue` —: afterwards the position is what it was,
+what is read from it is exactly this response's body, and what the file held before is
+untouched. -/
+theorem download_leaves_payload_at_position (f : FileSt) (body : Bytes) (hend : f.pos = f.data.length) :
+    (downloadInto f body).pos = f.pos ∧ (downloadInto f body).content = body ∧
+    (downloadInto f body).data.take f.pos = f.data := by
+  simp [downloadInto, FileSt.write, FileSt.content, hend]
+
+theorem downloadInto_data_end (f : FileSt) (body : Bytes) (hend : f.pos = f.data.length) :
+    (downloadInto f body).data = f.data ++ body := by
+  simp [downloadInto, FileSt.write, hend]
+
+/-- ... and so for downloads into one growing file (`-O`): the second caller reads exactly the
+second body, and the file is the concatenation -/
+theorem downloads_into_one_file (f : FileSt) (b₁ b₂ : Bytes) (hend : f.pos = f.data.length) :
+    (downloadInto { (downloadInto f b₁) with pos := (downloadInto f b₁).data.length } b₂).content = b₂ ∧
+    (downloadInto { (downloadInto f b₁) with pos := (downloadInto f b₁).data.length } b₂).data = f.data ++ b₁ ++ b₂ := by
+  have h1 := downloadInto_data_end f b₁ hend
+  constructor
+  · exact (download_leaves_payload_at_position
+      { (downloadInto f b₁) with pos := (downloadInto f b₁).data.length } b₂ rfl).2.1
+  · rw [downloadInto_data_end _ b₂ rfl]
+    simp only [h1]
+
+example : (downloadInto { data := lit "PREFIX", pos := 6 } (lit "abc")).content = lit "abc" ∧
+    (downloadInto { data := lit "PREFIX", pos := 6 } (lit "abc")).data = lit "PREFIXabc" := by decide
+
 /-- ... and a conforming exchange (complete, nothing after it, no `Connection: close`, peer
 keeps the connection open) does keep the connection: persistence is not given up -/
 theorem keepalive_kept (h : dc.Hom) (cfg : StreamCfg) (req : ReqInfo) (σ : List Nat) (w : Wire) (idx : Nat)
